@@ -42,6 +42,7 @@ type TwinSpec struct {
 }
 
 type twinSite struct {
+	weak  bool // inside a helper, not on every successful pass: counts for amounts, not for presence
 	in    ssa.Instruction
 	class string
 	alts  [][]string
@@ -138,33 +139,198 @@ func intersects(a, b []string) bool {
 	return false
 }
 
+// vsite is a call or store seen from the analysed function: either its own instruction, or
+// one inside a same-module helper it calls (virtual inlining: "extract method" refactorings
+// move a bookkeeping sequence into a helper without changing behaviour). anchor is the
+// instruction of the analysed function at which it happens; tr translates amount keys of
+// the helper's parameters into the caller's argument keys; must says that the site is on
+// every successful pass through the helper.
+type vsite struct {
+	anchor ssa.Instruction
+	call   ssa.CallInstruction
+	store  *ssa.Store
+	tr     func(string) string
+	must   bool
+}
+
+func trAll(tr func(string) string, ks []string) []string {
+	if tr == nil {
+		return ks
+	}
+	out := make([]string, len(ks))
+	for i, k := range ks {
+		out[i] = tr(k)
+	}
+	return out
+}
+
+func trAlts(tr func(string) string, alts [][]string) [][]string {
+	if tr == nil {
+		return alts
+	}
+	out := make([][]string, len(alts))
+	for i, a := range alts {
+		out[i] = trAll(tr, a)
+	}
+	return out
+}
+
+// keyTranslator maps keys built on the parameters of h to keys of the arguments of call c.
+func (p *Prog) keyTranslator(h *ssa.Function, c ssa.CallInstruction, outer func(string) string) func(string) string {
+	args := c.Common().Args
+	type rp struct{ name, key string }
+	var reps []rp
+	for i, pr := range h.Params {
+		if i < len(args) {
+			k := p.ExprKey(args[i])
+			if outer != nil {
+				k = outer(k)
+			}
+			reps = append(reps, rp{pr.Name(), k})
+		}
+	}
+	isIdent := func(b byte) bool {
+		return b == '_' || (b >= '0' && b <= '9') || (b >= 'a' && b <= 'z') || (b >= 'A' && b <= 'Z')
+	}
+	return func(k string) string {
+		for _, r := range reps {
+			pat := "p:" + r.name
+			from := 0
+			for {
+				i := strings.Index(k[from:], pat)
+				if i < 0 {
+					break
+				}
+				i += from
+				end := i + len(pat)
+				if end < len(k) && isIdent(k[end]) {
+					from = end
+					continue
+				}
+				k = k[:i] + r.key + k[end:]
+				from = i + len(r.key)
+			}
+		}
+		return k
+	}
+}
+
+// mustPassBlock: every successful run of h passes through block b.
+func (p *Prog) mustPassBlock(h *ssa.Function, b *ssa.BasicBlock) bool {
+	if len(h.Blocks) == 0 || b == h.Blocks[0] {
+		return true
+	}
+	seen, _ := reach(h, nil, nil, map[*ssa.BasicBlock]bool{b: true})
+	for _, rt := range returns(h) {
+		if seen[rt.Block()] && exitKind(rt) != ExitError {
+			return false
+		}
+	}
+	return true
+}
+
+// virtualSites lists the calls and field stores of fn together with those of the
+// same-module helpers it calls statically (two levels), except through `stop` functions.
+func (p *Prog) virtualSites(fn *ssa.Function, stop map[*ssa.Function]bool) []vsite {
+	var out []vsite
+	handlers := p.handlerSet()
+	var walk func(f *ssa.Function, anchor ssa.Instruction, tr func(string) string, must bool, depth int, stack map[*ssa.Function]bool)
+	walk = func(f *ssa.Function, anchor ssa.Instruction, tr func(string) string, must bool, depth int, stack map[*ssa.Function]bool) {
+		for _, b := range f.Blocks {
+			bm := must
+			if anchor != nil && must {
+				bm = p.mustPassBlock(f, b)
+			}
+			for _, in := range b.Instrs {
+				a := anchor
+				if a == nil {
+					a = in
+				}
+				switch x := in.(type) {
+				case *ssa.Store:
+					out = append(out, vsite{anchor: a, store: x, tr: tr, must: bm})
+				case ssa.CallInstruction:
+					out = append(out, vsite{anchor: a, call: x, tr: tr, must: bm})
+					if depth >= 2 {
+						continue
+					}
+					h := x.Common().StaticCallee()
+					if h == nil {
+						continue
+					}
+					h = p.unwrap(h)
+					if h == nil || !isComdexFn(h) || len(h.Blocks) == 0 || stop[h] || handlers[h] || stack[h] || moduleOf(h) != moduleOf(fn) || h.Signature.Recv() == nil && false {
+						continue
+					}
+					if strings.HasSuffix(fnPkgPath(h), "/types") {
+						continue
+					}
+					stack[h] = true
+					walk(h, a, p.keyTranslator(h, x, tr), bm, depth+1, stack)
+					delete(stack, h)
+				}
+			}
+		}
+	}
+	walk(fn, nil, nil, true, 0, map[*ssa.Function]bool{fn: true})
+	return out
+}
+
+func (p *Prog) handlerSet() map[*ssa.Function]bool {
+	if p.handlerSetMemo != nil {
+		return p.handlerSetMemo
+	}
+	m := map[*ssa.Function]bool{}
+	for _, e := range p.MsgHandlers() {
+		m[e.Fn] = true
+	}
+	p.handlerSetMemo = m
+	return m
+}
+
 // analyseTwins evaluates the spec on one handler function.
 func (p *Prog) analyseTwins(r *Report, spec *TwinSpec, fn *ssa.Function) {
 	name := fname(fn)
 	// effects by class
 	type eff struct {
-		be    *BankEffect
-		class string
-		keys  []string
+		be     *BankEffect
+		class  string
+		keys   []string
+		anchor ssa.Instruction
 	}
 	var effects []eff
 	classAmts := map[string][]string{}
-	for _, c := range calls(fn) {
-		be := bankEffect(c)
+	stop := map[*ssa.Function]bool{}
+	for _, u := range spec.Updaters {
+		stop[u.Fn] = true
+	}
+	for d := range spec.Deleters {
+		stop[d] = true
+	}
+	vs := p.virtualSites(fn, stop)
+	for _, v := range vs {
+		if v.call == nil {
+			continue
+		}
+		be := bankEffect(v.call)
 		if be == nil {
 			continue
 		}
 		for _, cl := range spec.Classes {
 			if cl.Is(be) {
-				ks := p.amountKeys(be.Coins)
-				effects = append(effects, eff{be, cl.Name, ks})
+				ks := trAll(v.tr, p.amountKeys(be.Coins))
+				effects = append(effects, eff{be, cl.Name, ks, v.anchor})
 				classAmts[cl.Name] = append(classAmts[cl.Name], ks...)
 			}
 		}
 	}
 	// twin sites
 	var sites []twinSite
-	for _, c := range calls(fn) {
+	for _, v := range vs {
+		if v.call == nil {
+			continue
+		}
+		c := v.call
 		for _, u := range spec.Updaters {
 			if !p.callIsFn(c, u.Fn) {
 				continue
@@ -172,7 +338,7 @@ func (p *Prog) analyseTwins(r *Report, spec *TwinSpec, fn *ssa.Function) {
 			args := callArgs(c)
 			if u.Aggr {
 				for _, cl := range u.Classes {
-					sites = append(sites, twinSite{in: c, class: cl, what: u.Fn.Name(), aggr: true})
+					sites = append(sites, twinSite{in: v.anchor, class: cl, what: u.Fn.Name(), aggr: true, weak: !v.must})
 				}
 				continue
 			}
@@ -191,19 +357,27 @@ func (p *Prog) analyseTwins(r *Report, spec *TwinSpec, fn *ssa.Function) {
 					class = u.Minus
 				}
 			}
-			sites = append(sites, twinSite{in: c, class: class, keys: keysOf(p, args[u.AmtArg]), alts: altKeys(p, args[u.AmtArg]), what: u.Fn.Name()})
+			sites = append(sites, twinSite{in: v.anchor, class: class, keys: trAll(v.tr, keysOf(p, args[u.AmtArg])), alts: trAlts(v.tr, altKeys(p, args[u.AmtArg])), what: u.Fn.Name(), weak: !v.must})
 		}
 		for del, classes := range spec.Deleters {
 			if p.callIsFn(c, del) {
 				for _, cl := range classes {
-					sites = append(sites, twinSite{in: c, class: cl, what: del.Name(), aggr: true})
+					sites = append(sites, twinSite{in: v.anchor, class: cl, what: del.Name(), aggr: true, weak: !v.must})
 				}
 			}
 		}
 	}
 	var storeSites []twinSite
 	for _, fr := range spec.Fields {
-		for _, st := range fieldStores(fn, fr.Type, fr.Field) {
+		for _, v := range vs {
+			if v.store == nil {
+				continue
+			}
+			st := v.store
+			fa, isFA := st.Addr.(*ssa.FieldAddr)
+			if !isFA || namedTypeName(fa.X.Type()) != fr.Type || fieldName(fa.X.Type(), fa.Field) != fr.Field {
+				continue
+			}
 			val := st.Val
 			op, recv, x, ok := addSubOf(val)
 			what := fr.Type + "." + fr.Field
@@ -219,7 +393,7 @@ func (p *Prog) analyseTwins(r *Report, spec *TwinSpec, fn *ssa.Function) {
 				if op == "Sub" {
 					class = fr.Sub
 				}
-				storeSites = append(storeSites, twinSite{in: st, class: class, keys: keysOf(p, x), alts: altKeys(p, x), what: what + " " + op})
+				storeSites = append(storeSites, twinSite{in: v.anchor, class: class, keys: trAll(v.tr, keysOf(p, x)), alts: trAlts(v.tr, altKeys(p, x)), what: what + " " + op, weak: !v.must})
 				continue
 			}
 			// the value may be a variable computed as field.Add/Sub earlier (updatedUserDebt := AmountOut.Sub(x))
@@ -230,7 +404,7 @@ func (p *Prog) analyseTwins(r *Report, spec *TwinSpec, fn *ssa.Function) {
 			if isZeroValue(val) {
 				continue
 			}
-			storeSites = append(storeSites, twinSite{in: st, class: fr.Add, keys: keysOf(p, val), alts: altKeys(p, val), what: what + " ="})
+			storeSites = append(storeSites, twinSite{in: v.anchor, class: fr.Add, keys: trAll(v.tr, keysOf(p, val)), alts: trAlts(v.tr, altKeys(p, val)), what: what + " =", weak: !v.must})
 		}
 	}
 	if len(effects) == 0 && len(sites) == 0 && len(storeSites) == 0 {
@@ -283,7 +457,7 @@ func (p *Prog) analyseTwins(r *Report, spec *TwinSpec, fn *ssa.Function) {
 			blocked := map[*ssa.BasicBlock]bool{}
 			have := false
 			for _, s := range twins {
-				if s.class == e.class {
+				if s.class == e.class && !s.weak {
 					blocked[s.in.Block()] = true
 					have = true
 				}
@@ -295,9 +469,9 @@ func (p *Prog) analyseTwins(r *Report, spec *TwinSpec, fn *ssa.Function) {
 				construct = fmt.Sprintf("%s #%d", base, m[base])
 			}
 			r.Instance(spec.Rule)
-			a := e.be.Call.Block()
+			a := e.anchor.Block()
 			if blocked[a] {
-				r.OK(spec.Rule, construct, "twin in the same block", p.instrPos(e.be.Call))
+				r.OK(spec.Rule, construct, "twin in the same block", p.instrPos(e.anchor))
 				continue
 			}
 			seenFromEntry, _ := reach(fn, nil, nil, blocked)
@@ -314,9 +488,9 @@ func (p *Prog) analyseTwins(r *Report, spec *TwinSpec, fn *ssa.Function) {
 				}
 			}
 			if !have || bad {
-				r.Fail(spec.Rule, construct, fmt.Sprintf("a success path moves coins (%s, class %s) without the matching %s update", e.be.Op, e.class, kind), p.instrPos(e.be.Call), wit)
+				r.Fail(spec.Rule, construct, fmt.Sprintf("a success path moves coins (%s, class %s) without the matching %s update", e.be.Op, e.class, kind), p.instrPos(e.anchor), wit)
 			} else {
-				r.OK(spec.Rule, construct, "every success path through the movement passes its twin", p.instrPos(e.be.Call))
+				r.OK(spec.Rule, construct, "every success path through the movement passes its twin", p.instrPos(e.anchor))
 			}
 		}
 	}
